@@ -281,11 +281,11 @@ def check_execution(cfg, ex, marks, leaked):
             if t[0] == "report" and t[1] == k:
                 name, val = t[2]
                 if rec["readings"].get(name) != val:
-                    P.append(("reading-not-available-at-return", f"write({k}) [{b}] returned but get_parameter({name!r}) = {rec['readings'].get(name)!r}, expected {val}"))
+                    P.append(reading_problem(stale_source, k, b, name, rec["readings"].get(name), val))
             if t[0] == "ack" and t[1] == k and len(t) > 2:
                 name, val = t[2]
                 if rec["readings"].get(name) != val:
-                    P.append(("reading-not-available-at-return", f"write({k}) [{b}] returned but get_parameter({name!r}) = {rec['readings'].get(name)!r}, expected {val}"))
+                    P.append(reading_problem(stale_source, k, b, name, rec["readings"].get(name), val))
     if marks["calls"] and lost_k is None:
         # an alarm the host had already read when a later write() was made must have been raised by one of those writes
         for i, (_, t) in enumerate(produced):
@@ -322,6 +322,14 @@ def check_execution(cfg, ex, marks, leaked):
             else:
                 P.append(("disconnect-before-last-ack", f"disconnect(True) returned after {marks['rx_at_disconnect']} replies; produced {produced}"))
     return P
+
+
+def reading_problem(stale_source, k, b, name, got, val):
+    if stale_source:
+        # acknowledgements are shifted by one (known finding): this call was released by the previous statement's reply while
+        # its own reply had been read from the link but not yet processed
+        return (f"stale-ok:{stale_source}", f"write({k}) [{b}] returned before its own reply was processed (shifted acknowledgements): get_parameter({name!r}) = {got!r}, expected {val}")
+    return ("reading-not-available-at-return", f"write({k}) [{b}] returned but get_parameter({name!r}) = {got!r}, expected {val}")
 
 
 def releasing_source(produced, consumed, k, first_start=None):
